@@ -23,6 +23,14 @@ CHECKS = {
    "spec/ProblemTable.tla transcribes insert_temperature_interval helper by helper; TLC explores every small table x every request sequence (unsorted, duplicates, existing rows, above/below/inside, several per interval) x histories of calls and checks same-curves, ordering, dT/dH rules, return count and idempotence; every explored call is replayed on a real ProblemTable (all three CP/dH pairs, populated and NaN curve columns) under three embeddings incl. near-duplicate requests.",
    "One representative column per column class; tables start consistent with first-row CP 0 (as every pipeline table).",
    "TLA+ spec + TLC exhaustive model check; TLC-exported cases replayed into the implementation"),
+ "C03": ("model_checking", "7/C03",
+   "spec/Utility.tla runs multi-utility assignment as one action per utility (the code's order, masks, slices and break) over every multiset of <=3 lattice streams x hot/cold ladder options (levels inside pockets, at and beyond the pinch, isothermal and gliding); TLC checks that duties are non-negative and sum to the exact Qh/Qc; every case is replayed through compute_direct_integration_targets on a real Zone and the reported duties judged against TLC's targets.",
+   "Ladders always contain an outermost hot and cold level (the role of the default utilities); the default-utility decision itself is exercised at service level by C02/C14 replays.",
+   "TLA+ spec + TLC exhaustive model check; TLC-exported cases replayed into the implementation"),
+ "C04": ("model_checking", "7/C04",
+   "Same machine as C03; TLC checks feasibility 0 <= utility GCC <= pocket-free GCC at every breakpoint of either curve (sufficient for piecewise-linear curves; NP's extra breakpoints are concave) and, for isothermal ladders with distinct levels, equality with the closed-form lowest-grade-first optimum, which TLC itself proves maximal by brute force in the tiny config. Replay judges the unrounded H_net_ut/H_net_np columns (hook snapshot) and the utility GCC rebuilt from the reported duties. One known finding (KF-C04-glide) is carved out by an input-class predicate that TLC evaluates per case.",
+   "Utilities with zero contribution; isothermal = 0.1 K glide placed so that no lattice breakpoint falls inside it.",
+   "TLA+ spec + TLC exhaustive model check; TLC-exported cases replayed into the implementation"),
 }
 NOT_YET = {}
 
@@ -50,7 +58,7 @@ def main():
             "guard": "OPENPINCH_VERIF",
             "enable": "checks import OpenPinch from /repo's working tree with OPENPINCH_VERIF=1 (trace sink OPENPINCH_VERIF_TRACE=<file>)",
             "baseline_off_cmd": "cd /repo && env -u OPENPINCH_VERIF /venv/bin/python -m pytest -ra -q -p no:cacheprovider --timeout=900 --continue-on-collection-errors",
-            "source_commits": [],
+            "source_commits": ["d431437"],
             "add_only": True,
         },
         "engines": [{"name": "tlc", "path": "/verif/spec", "serves_properties": sorted(CHECKS),
